@@ -137,8 +137,15 @@ func (k Keeper) AllocateTokensToStakers(ctx sdk.Context, operatorAddress sdk.Acc
 				if curStakerPower, err := k.StakingKeeper.CalculateUSDValueForStaker(ctx, staker, avsAddress, operatorAddress.Bytes()); err != nil {
 					logger.Error("curStakerPower error", "error", err)
 				} else {
+					// a staker is found once per supported asset and per AVS the operator has
+					// opted into; it must be weighted once, and the total must be the sum of
+					// the recorded weights, otherwise the fractions add up to more than one
+					if prevPower, seen := stakersPowerMap[staker]; seen {
+						curTotalStakersPowers = curTotalStakersPowers.Sub(prevPower)
+					} else {
+						globalStakerAddressList = append(globalStakerAddressList, staker)
+					}
 					stakersPowerMap[staker] = curStakerPower
-					globalStakerAddressList = append(globalStakerAddressList, staker)
 					curTotalStakersPowers = curTotalStakersPowers.Add(curStakerPower)
 				}
 			}
